@@ -258,7 +258,11 @@ fn run(args: &Args, ctx: &mut Ctx, ns: &[usize], elem: &str) {
         }
         "iters" => {
             for &n in ns {
-                dispatch!(n, MainPad, iters::iters, &mut *ctx);
+                if elem == "nodrop" {
+                    dispatch!(n, (), iters::iters, &mut *ctx);
+                } else {
+                    dispatch!(n, MainPad, iters::iters, &mut *ctx);
+                }
             }
         }
         "faults" => {
